@@ -187,14 +187,14 @@ func main() {
 			}
 			tol := 1e-9 * (r + p)
 			var n int64
-			nrH := vlib.Pick(c, 12, 24)
+			nrH := vlib.Pick(c, 12, 48)
 			for ir := 0; ir <= nrH; ir++ {
 				rr := r - 1.1*h + (1.4*h)*float64(ir)/float64(nrH)
 				if rr <= 0 {
 					continue
 				}
-				for ip := 0; ip < vlib.Pick(c, 12, 24); ip++ {
-					ph := 2 * math.Pi * (float64(ip) + 0.37) / float64(vlib.Pick(c, 12, 24))
+				for ip := 0; ip < vlib.Pick(c, 12, 48); ip++ {
+					ph := 2 * math.Pi * (float64(ip) + 0.37) / float64(vlib.Pick(c, 12, 48))
 					for iz := -24; iz <= 24; iz++ {
 						z := p * float64(iz) / 24 * 2
 						f0 := s.Evaluate(cyl(rr, ph, z))
